@@ -208,7 +208,8 @@ def open_method_call(X, m, recv, args, kwargs, node):
     c = T.call_term('cb', m, recv_t, pack_of(X, args), kw_of(X, kwargs))
     site = spec.site_config(X, node)
     return T.open_site(X, c, node, result_T=None, reenter=site.get('reenter', True),
-                       raises=site.get('raises'), name='callback')
+                       raises=site.get('raises'), name='callback',
+                       check_wf=site.get('check_wf'))
 
 
 # ================================================================== contracts
@@ -259,12 +260,12 @@ def add_dispatcher_invariants(kl):
 def register_dispatcher_contracts(spec, sort):
     S = TSort(sort)
     C = spec.contract
-    wf = ['wf(self)']
+    wf = ["wf(self, 'Disp')"]
     q = E + 'EventDispatcher.'
 
     C(q + '__init__', params=dict(self=S), props=['C03'],
       modifies=['self._events', 'self._handlers', 'self._event_queue'],
-      ensures={'init-wf': ('wf(self)', 'prop'),
+      ensures={'init-wf': ("wf(self, 'Disp')", 'prop'),
                'empty': 'len(self._event_queue) == 0 and '
                         'all(not (n in self._events) for n in Str) and '
                         'all(not (r in self._handlers) for r in Ref)'})
@@ -273,7 +274,7 @@ def register_dispatcher_contracts(spec, sort):
       requires=wf + ['alive(handler)'],
       modifies=['self._events', 'self._handlers'],
       ensures={
-          'wf': ('wf(self)', 'prop'),
+          'wf': ("wf(self, 'Disp')", 'prop'),
           'registered': 'wref(handler) in self._handlers',
           'others-unchanged': 'all(implies(r != wref(handler), (r in self._handlers) == '
                               '(r in old(self._handlers))) for r in Ref)',
@@ -288,7 +289,7 @@ def register_dispatcher_contracts(spec, sort):
     C(q + '_remove_weak_handler', params=dict(self=S, handler_ref=Ref), props=['C03', 'C10'],
       requires=wf, modifies=['self._events', 'self._handlers'],
       ensures={
-          'wf': ('wf(self)', 'prop'),
+          'wf': ("wf(self, 'Disp')", 'prop'),
           'unregistered': 'not (handler_ref in self._handlers)',
           'gone-from-every-event': 'all(not (n in self._events and rm(handler_ref, m) in '
                                    'self._events[n]) for n in Str for m in Method)',
@@ -302,7 +303,7 @@ def register_dispatcher_contracts(spec, sort):
     C(q + 'remove_handler', params=dict(self=S, handler=Handler), props=['C03'],
       requires=wf, modifies=['self._events', 'self._handlers'],
       ensures={
-          'wf': ('wf(self)', 'prop'),
+          'wf': ("wf(self, 'Disp')", 'prop'),
           'unregistered': 'not (wref(handler) in self._handlers)',
           'others-unchanged': 'all(implies(r != wref(handler), (r in self._handlers) == '
                               '(r in old(self._handlers))) for r in Ref)',
@@ -317,7 +318,7 @@ def register_dispatcher_contracts(spec, sort):
       log_invocation=('dlog', 'qe(event_name, args, kwargs)'),
       ensures={
           'own-invocations-only': 'dlog() == old(dlog())',
-          'wf': ('wf(self)', 'prop'),
+          'wf': ("wf(self, 'Disp')", 'prop'),
           'unknown-silent': 'implies(not (event_name in old(self._events)), '
                             'all(cnt(c) == old(cnt(c)) for c in Call) and '
                             'self._event_queue == old(self._event_queue) and '
@@ -344,7 +345,7 @@ def register_dispatcher_contracts(spec, sort):
                               'len(self._event_queue) == len(old(self._event_queue)))',
       },
       raises={'$OtherException': {
-          'wf': ('wf(self)', 'prop'),
+          'wf': ("wf(self, 'Disp')", 'prop'),
           'own-invocations-only': 'dlog() == old(dlog())',
           'only-from-callbacks': 'event_name in old(self._events) and old(self._dispatch_enabled)',
           'at-most-once-nothing-else': 'all((cnt(c) == old(cnt(c)) or (cnt(c) == old(cnt(c)) + 1 '
@@ -370,7 +371,7 @@ def register_dispatcher_contracts(spec, sort):
       requires=wf, modifies=['ghost:log', 'ghost:cnt', 'ghost:dlog'], open_effect=True,
       ghost_results={'k': TInt},
       ensures={
-          'wf': ('wf(self)', 'prop'),
+          'wf': ("wf(self, 'Disp')", 'prop'),
           'disable-only-sets-flag': 'implies(not value, dlog() == old(dlog()) and '
                                     'all(cnt(c) == old(cnt(c)) for c in Call) and '
                                     'self._event_queue == old(self._event_queue) and '
@@ -381,7 +382,7 @@ def register_dispatcher_contracts(spec, sort):
                                             'k == len(old(self._event_queue))))',
       },
       raises={'$OtherException': {
-          'wf': ('wf(self)', 'prop'),
+          'wf': ("wf(self, 'Disp')", 'prop'),
           'only-when-enabling': 'value',
           # the event being delivered when the callback raised counts as delivered:
           # it is gone from the queue, the undelivered ones stay pending in order
@@ -397,7 +398,7 @@ def register_dispatcher_contracts(spec, sort):
 
     C(q + 'clear', params=dict(self=S), props=['C03'], requires=wf,
       modifies=['self._events', 'self._handlers', 'self._event_queue', 'self._dispatch_enabled'],
-      ensures={'wf': ('wf(self)', 'prop'),
+      ensures={'wf': ("wf(self, 'Disp')", 'prop'),
                'empty': 'len(self._event_queue) == 0 and self._dispatch_enabled and '
                         'all(not (r in self._handlers) for r in Ref) and '
                         'all(not (n in self._events) for n in Str)'})
@@ -422,7 +423,7 @@ def register_dispatcher_contracts(spec, sort):
         'no-new-events': 'all(implies(n in self._events, n in old(self._events)) for n in Str)',
     }, havoc=['self._events'])
     spec.loop(q + 'dispatch', 0, index='i', seq='ord', invariants={
-        'wf': 'wf(self)',
+        'wf': "wf(self, 'Disp')",
         'at-most-once-nothing-else': (
             'all((cnt(c) == old(cnt(c)) or (cnt(c) == old(cnt(c)) + 1 and ' + expected +
             ' and pos(rm(wref(cb_recv(c)), cb_m(c))) < i)) for c in Call)'),
@@ -438,7 +439,7 @@ def register_dispatcher_contracts(spec, sort):
     }, havoc=['self._events', 'self._handlers', 'self._event_queue', 'self._dispatch_enabled',
               'ghost:log', 'ghost:alive', 'ghost:cnt'])
     spec.loop(q + 'dispatch_enabled.setter', 0, ghost={'k': (TInt, '0', 'k + 1')}, invariants={
-        'wf': 'wf(self)',
+        'wf': "wf(self, 'Disp')",
         'released-once-in-order': released,
         'still-enabled-means-nothing-queued': (
             'implies(self._dispatch_enabled, len(self._event_queue) == '
